@@ -10,7 +10,7 @@ package endorse
 //@   ensures err != nil ==> result == nil
 
 //@ func tryChange
-//@   modifies copsCalls, lastRead, lastReadErr, copsWrites, checkedMissing, marshalOf, parsedWasLastRead, pbsrc, pbok, vcGetOps, vcOpened, vcResults, copsDestroyed, copsCommitTries, copsCommitsOK, lastRetriable
+//@   modifies copsCalls, lastRead, lastReadErr, copsWrites, copsModeFails, checkedMissing, marshalOf, parsedWasLastRead, pbsrc, pbok, vcGetOps, vcOpened, vcResults, copsDestroyed, copsCommitTries, copsCommitsOK, lastRetriable
 //@   requires change != nil
 //@   requires ecOf(ctx).VCS != nil
 //@   sweep[C15] nilinvoke nilcall
@@ -23,7 +23,7 @@ package endorse
 //@   ensures[C15] ecOf(ctx) != nil && ecOf(ctx).DryRun ==> vcGetOps == old(vcGetOps) && copsCalls == old(copsCalls)
 
 //@ func RetrySubmit
-//@   modifies copsCalls, lastRead, lastReadErr, copsWrites, checkedMissing, marshalOf, parsedWasLastRead, pbsrc, pbok, vcGetOps, vcOpened, vcResults, copsDestroyed, copsCommitTries, copsCommitsOK, lastRetriable
+//@   modifies copsCalls, lastRead, lastReadErr, copsWrites, copsModeFails, checkedMissing, marshalOf, parsedWasLastRead, pbsrc, pbok, vcGetOps, vcOpened, vcResults, copsDestroyed, copsCommitTries, copsCommitsOK, lastRetriable
 //@   requires f != nil
 //@   requires ecOf(ctx) == nil || (ecOf(ctx).VCS != nil && ecOf(ctx).CommitRetries < 9223372036854775807)
 //@   sweep[C15] nilinvoke nilcall
@@ -54,8 +54,13 @@ package endorse
 
 //@ func writeEndorsement
 //@   requires[C13] cops == nil || allowOverwrite(ctx) || forall(i, 0 <= i && i < len(paths) ==> checkedMissing[paths[i]])
-//@   modifies copsCalls, marshalOf, copsWrites
+//@   modifies copsCalls, marshalOf, copsWrites, copsModeFails
 //@   ensures[C13] err == nil && cops != nil ==> copsWrites > old(copsWrites)
+// C14 (an attempt that hit a fault reports it, so that it is retried or abandoned - never committed): success means
+// every file's mode change succeeded, not just the last one's.
+//@   ensures[C14] err == nil ==> copsModeFails == old(copsModeFails)
+//@   loop 1 invariant[C14] copsModeFails == old(copsModeFails)
+//@   loop 2 invariant[C14] copsModeFails == old(copsModeFails)
 //@   sweep[C15] nilinvoke nilcall
 //@   ensures[C15] cops == nil ==> copsCalls == old(copsCalls) && vcGetOps == old(vcGetOps)
 
@@ -74,7 +79,7 @@ package endorse
 //@   ensures[C13] err == nil && cops != nil ==> copsWrites > old(copsWrites)
 // (validity assumption: a decoded manifest has no nil entries — protobuf decoding never yields nil elements)
 //@   requires[assume] forall(i, 0 <= i && i < len(endorsementMap.Entries) ==> endorsementMap.Entries[i] != nil)
-//@   modifies copsCalls, lastRead, lastReadErr, marshalOf, copsWrites, checkedMissing
+//@   modifies copsCalls, lastRead, lastReadErr, marshalOf, copsWrites, copsModeFails, checkedMissing
 //@   requires ecOf(ctx) != nil
 //@   requires endorsementMap != nil
 //@   requires ecOf(ctx).VCS != nil
@@ -83,7 +88,7 @@ package endorse
 
 //@ func snapshotEndorsement
 //@   ensures[C13] true
-//@   modifies copsCalls, lastRead, lastReadErr, marshalOf, pbsrc, pbok, copsWrites, checkedMissing
+//@   modifies copsCalls, lastRead, lastReadErr, marshalOf, pbsrc, pbok, copsWrites, copsModeFails, checkedMissing
 //@   requires ecOf(ctx) != nil
 //@   requires ecOf(ctx).VCS != nil
 //@   sweep[C15] nilinvoke nilcall
@@ -93,14 +98,14 @@ package endorse
 // between the two leaves a manifest whose entries all name existing files.
 //@ func changeEndorsements
 //@   atcall WriteOrCreateFiles requires[C13] copsWrites >= old(copsWrites) + 1
-//@   modifies copsCalls, lastRead, lastReadErr, copsWrites, checkedMissing, marshalOf, parsedWasLastRead, pbsrc, pbok
+//@   modifies copsCalls, lastRead, lastReadErr, copsWrites, copsModeFails, checkedMissing, marshalOf, parsedWasLastRead, pbsrc, pbok
 //@   requires ecOf(ctx) != nil && ecOf(ctx).VCS != nil && (cops == nil) == ecOf(ctx).DryRun
 //@   sweep[C15] nilinvoke nilcall
 //@   ensures[C15] ecOf(ctx).DryRun ==> copsCalls == old(copsCalls) && vcGetOps == old(vcGetOps)
 //@   ensures[C14] err == nil && !ecOf(ctx).DryRun && ecOf(ctx).SnapshotDir == "" ==> parsedWasLastRead
 
 //@ func commitEndorsement$1
-//@   modifies copsCalls, lastRead, lastReadErr, copsWrites, checkedMissing, marshalOf, parsedWasLastRead, pbsrc, pbok
+//@   modifies copsCalls, lastRead, lastReadErr, copsWrites, copsModeFails, checkedMissing, marshalOf, parsedWasLastRead, pbsrc, pbok
 //@   requires ecOf(ctx) != nil && ecOf(ctx).VCS != nil && (cops == nil) == ecOf(ctx).DryRun
 //@   sweep[C15] nilinvoke nilcall
 //@   ensures[C15] ecOf(ctx).DryRun ==> copsCalls == old(copsCalls) && vcGetOps == old(vcGetOps)
@@ -109,7 +114,7 @@ package endorse
 // C14 (reports success exactly when a commit succeeded and was recorded once): one submission - success means exactly
 // one result was recorded with the backend, failure means none.
 //@ func commitEndorsement
-//@   modifies copsCalls, lastRead, lastReadErr, copsWrites, checkedMissing, marshalOf, parsedWasLastRead, pbsrc, pbok, vcGetOps, vcOpened, vcResults, copsDestroyed, copsCommitTries, copsCommitsOK, lastRetriable, commitSubmits
+//@   modifies copsCalls, lastRead, lastReadErr, copsWrites, copsModeFails, checkedMissing, marshalOf, parsedWasLastRead, pbsrc, pbok, vcGetOps, vcOpened, vcResults, copsDestroyed, copsCommitTries, copsCommitsOK, lastRetriable, commitSubmits
 //@   ghostset commitSubmits = commitSubmits + 1
 //@   ensures[C14] ecOf(ctx) != nil && result == nil ==> vcResults == old(vcResults) + 1
 //@   ensures[C14] ecOf(ctx) != nil && result != nil ==> vcResults == old(vcResults)
@@ -141,7 +146,7 @@ package endorse
 //@   ensures[C15] vcGetOps == old(vcGetOps) && copsCalls == old(copsCalls)
 
 //@ func VirtualFirmware
-//@   modifies copsCalls, lastRead, lastReadErr, copsWrites, checkedMissing, marshalOf, parsedWasLastRead, pbsrc, pbok, vcGetOps, vcOpened, vcResults, copsDestroyed, copsCommitTries, copsCommitsOK, lastRetriable, signerCalls, caCalls, sigKey, sigDigest, lastSig, caPrimary, certKeyArg, lastCert, bundleKeyArg, lastBundle, snpImage, tdxImage, commitSubmits, lastCertOK, lastBundleOK, stdoutWrites
+//@   modifies copsCalls, lastRead, lastReadErr, copsWrites, copsModeFails, checkedMissing, marshalOf, parsedWasLastRead, pbsrc, pbok, vcGetOps, vcOpened, vcResults, copsDestroyed, copsCommitTries, copsCommitsOK, lastRetriable, signerCalls, caCalls, sigKey, sigDigest, lastSig, caPrimary, certKeyArg, lastCert, bundleKeyArg, lastBundle, snpImage, tdxImage, commitSubmits, lastCertOK, lastBundleOK, stdoutWrites
 //@   requires ecOf(ctx) == nil || (ecOf(ctx).CommitRetries < 9223372036854775807 && forall(i, 0 <= i && i < len(ecOf(ctx).VCSs) ==> ecOf(ctx).VCSs[i] != nil))
 //@   sweep[C15] nilinvoke nilcall
 //@   ensures[C15] ecOf(ctx) != nil && old(ecOf(ctx).MeasurementOnly) ==> signerCalls == old(signerCalls) && caCalls == old(caCalls) && vcGetOps == old(vcGetOps) && copsCalls == old(copsCalls)
